@@ -183,7 +183,7 @@ func runC08(c *Ctx) {
 					continue
 				}
 				// a Schedulable() return inside the walk loop is allowed only when it does not depend on the queue (e.g. preemptible job before the loop)
-				inLoop := wk.Header.Dominates(b) && reachesWithin(b, wk.Header, wk.Header)
+				inLoop := insideLoopBody(b)
 				c.Check(!inLoop, "O3", "MPT", fmt.Sprintf("%s: schedulable only outside the walk (block %d)", funcKey(w), b.Index), instrPos(ret), "after the loop / before it", "the "+ck.what+" check answers schedulable from inside the ancestor walk (remaining ancestors unchecked)")
 			}
 		}
@@ -211,8 +211,7 @@ func runC08(c *Ctx) {
 				continue
 			}
 			if k, ok := ret.Results[0].(*ssa.Const); ok && k.Value != nil && k.Value.ExactString() == "false" {
-				h := loopHeaderOf(b)
-				c.Check(h == nil, "O4", "MPT", fmt.Sprintf("%s: 'not over' only after all resources (block %d)", funcKey(cmp), b.Index), instrPos(ret), "after the loop", "the comparison answers 'not over' before all resources were compared")
+				c.Check(!insideLoopBody(b), "O4", "MPT", fmt.Sprintf("%s: 'not over' only after all resources (block %d)", funcKey(cmp), b.Index), instrPos(ret), "after the loop", "the comparison answers 'not over' before all resources were compared")
 			}
 		}
 	}
